@@ -5,7 +5,7 @@ from .funnel import Funnel, fitness_of, init_agent_overrides
 META = {
     "explanation": "The real _init_agent / _fcn / Task.solve / calculate_fitness / Population / OptimizationResult run "
                    "with an uninterpreted objective (fresh solver variables F_j per objective), symbolic non-negative "
-                   "weights and symbolic candidates, for MIN and MAX, single and multi objective, the base class and "
+                   "weights and symbolic candidates (single-objective values also +inf / -inf), for MIN and MAX, single and multi objective, the base class and "
                    "each of the 19 _init_agent overrides. Oracle: the objective is called exactly once, with the "
                    "agent's own reported position; internal cost = sum(w_j F_j) (negated for MAX); reported cost "
                    "(after Population / OptimizationResult packaging) = sum(w_j F_j) in the user's sign; fitness = "
@@ -53,10 +53,10 @@ def check_cost(fu, a):
     return OK
 
 
-def ob_cost(names, cname, dname, n_obj, weights="sym"):
+def ob_cost(names, cname, dname, n_obj, weights="sym", f_kind="real"):
     def f():
         with env(rng_deny=(cname == "base")):
-            fu = Funnel(names, cname, DIRS[dname], n_obj, weights=weights)
+            fu = Funnel(names, cname, DIRS[dname], n_obj, weights=weights, f_kind=f_kind)
             return check_cost(fu, fu.run())
     return f
 
@@ -154,6 +154,10 @@ def obligations(tier):
             for names in (("C",), ("C", "D3")) if not th else (("C",), ("C", "D3"), ("P3", "CM2")):
                 obs.append(Ob(f"cost[{'+'.join(names)},{d},k={n_obj},w={wmode}]",
                               ob_cost(names, "base", d, n_obj, wmode), 200))
+        if d == "max":
+            obs.append(Ob("cost[C,max-str,k=1,w=none]", ob_cost(("C",), "base", "max-str", 1, "none"), 200))
+            obs.append(Ob("cost[C,max-str,k=2,w=sym]", ob_cost(("C",), "base", "max-str", 2, "sym"), 200))
+        obs.append(Ob(f"cost_infinite_objective[C,{d}]", ob_cost(("C",), "base", d, 1, "none", f_kind="ext"), 200))
         for (k, j) in ((0, 2), (0, 3), (2, 0), (2, 1), (2, 3), (3, 2), (1, 2), (3, 0)):
             obs.append(Ob(f"mismatch[obj={k},w={j},{d}]", ob_mismatch(k, j, d), 60))
         for k in (0, 1, 2):
